@@ -13,8 +13,10 @@ package main
 import (
 	"context"
 	"fmt"
+	"log/slog"
 	"math"
 	"os"
+	"runtime"
 	"sort"
 	"strings"
 	"sync"
@@ -28,10 +30,14 @@ import (
 	"verif/harness/internal/gen"
 )
 
-var popts = parser.Options{EnableExperimentalFunctions: true}
+// all experimental syntax is enabled; anchored/smoothed selectors and duration expressions are
+// outside the Coq model (such queries are judged on the Go side only), fill modifiers are modelled
+var popts = parser.Options{EnableExperimentalFunctions: true, ExperimentalDurationExpr: true,
+	EnableExtendedRangeSelectors: true, EnableBinopFillModifiers: true}
 
 func newEngine(variant int) *promql.Engine {
 	o := promql.EngineOpts{
+		Logger:                   engineLogger(),
 		MaxSamples:               200000,
 		Timeout:                  300 * time.Second,
 		NoStepSubqueryIntervalFn: func(int64) int64 { return 30000 },
@@ -49,6 +55,35 @@ func newEngine(variant int) *promql.Engine {
 		o.MaxSamples = 150
 	}
 	return promql.NewEngine(o)
+}
+
+// engineLogger: stack traces of recovered runtime panics go to stderr in replay mode only.
+func engineLogger() *slog.Logger {
+	if os.Getenv("VERIF_C33_QUERY") == "" {
+		return nil
+	}
+	return slog.New(slog.NewTextHandler(os.Stderr, nil))
+}
+
+// replay runs one query (env VERIF_C33_QUERY) on every data set and engine configuration of the
+// given seed and prints the outcomes: the reproducer for a reported case.
+func replay(q string, seed uint64) {
+	for di := 0; di < 6; di++ {
+		d := genDataset(gen.Fork(seed, 1000000+di))
+		for ei := 0; ei < 3; ei++ {
+			ng := newEngine(ei)
+			for _, ts := range []int64{0, 100000, 300000, 450000, 600000, 1200000, 333333, -5000} {
+				c := &qcase{q: q, ts: ts, rs: ts - 60000, step: 15000, nsteps: 4}
+				io := runOne(ng, d, c, true)
+				ro := runOne(ng, d, c, false)
+				if io.class == clInternal || ro.class == clInternal {
+					fmt.Printf("dataset %d engine %d ts %d: instant: %s | range: %s\n", di, ei, ts, obsStr(io), obsStr(ro))
+					return
+				}
+			}
+		}
+	}
+	fmt.Println("no internal error reproduced")
 }
 
 // ---- observations ----------------------------------------------------------------------------
@@ -166,6 +201,8 @@ type qcase struct {
 	unstable   bool
 	orderDep   bool
 	paramQuirk bool
+	emptyQLbl  bool
+	bareExt    bool
 }
 
 func runOne(ng *promql.Engine, d *dataset, c *qcase, instant bool) (o runObs) {
@@ -275,17 +312,42 @@ var corpus = [][2]string{
 	{"absent", `absent_over_time(nothing[1m]) or absent(nothing{job="a"})`},
 	{"sort-label", `sort_by_label(foo, "job", "instance")`},
 	{"hq-multi", `histogram_quantiles(h, "q", 0.5, 0.9)`},
+	{"stress-agg", `sum by (g) (many)`},
+	{"stress-agg-without", `avg without (i) (many * 2)`},
+	{"stress-count-values", `count_values by (g) ("v", many)`},
+	{"stress-quantile", `quantile by (g) (0.9, rate(many[2m]))`},
+	{"stress-binop", `many + on (g, i) group_left many`},
+	{"stress-binop-agg", `sum by (g) (many) / on (g) count by (g) (many)`},
+	{"stress-over-time", `max by (g) (avg_over_time(many[5m])) - min by (g) (min_over_time(many[5m]))`},
+	{"stress-subquery", `sum by (g) (max_over_time((many > 0)[3m:30s]))`},
+	{"stress-label-replace", `count by (x) (label_replace(many, "x", "$1", "i", "(.).*"))`},
+	{"stress-stddev", `stddev by (g) (many) + stdvar by (g) (many)`},
+	{"stress-set", `(many and on (g) many{i="1"}) or many{g="g3"}`},
+	{"stress-sort", `sort_desc(sum by (i) (many))`},
+	{"bare-anchored-empty-window", `foo[1m] anchored`},
+	{"bare-smoothed-empty-window", `(foo[10m] smoothed @ end())`},
+	{"call-anchored", `increase(foo[1m] anchored) + rate(foo[2m] smoothed)`},
+	{"fill-modifier", `foo + on(job, instance) fill(0) bar`},
+	{"duration-expr", `rate(foo[step()+1m]) + foo offset (1m*2)`},
+	{"hq-empty-label", `-histogram_quantiles(h, "", 0.5)`},
+	{"hq-empty-label-classic", `-histogram_quantiles(b_bucket, "", 0.5, 0.9)`},
+	{"agg-param-varies-expr-invariant", `topk(scalar(foo{job="a",instance="i0"}) / 10, foo @ 300)`},
+	{"agg-param-at-start", `quantile(scalar(foo{job="a",instance="i0"} @ start()) / 100, bar)`},
 }
 
 func main() {
 	f := gallina.ParseFlags()
+	if q := os.Getenv("VERIF_C33_QUERY"); q != "" {
+		replay(q, f.Seed)
+		return
+	}
 	meta := gallina.NewMeta("C33", f.Seed, f.Tier)
 	meta.Rule = "corpus of reproducers and typing edge cases first, then queries from a type-directed grammar generator (all of parser.Functions incl. experimental, aggregations, binary operators with matching modifiers, subqueries, @/offset, parentheses) with injected type errors (per-mille rate drawn per case from {0,0,0,15,40,120}); each runs as instant and as range query on one of 6 generated data sets in one of 3 engine configurations, then again concurrently; non-trivial = syntactically valid query with at least one operator/call/aggregation node; distinct by query string"
 	cf := &gallina.CaseFile{Dir: f.Out, Type: "case", PerShard: 2500,
 		Preamble: "From Coq Require Import List ZArith String.\nFrom Verif Require Import model.PromqlTyping corr.CorrC33.\nImport ListNotations.\nOpen Scope string_scope.\nOpen Scope Z_scope.\n",
 		Footer:   gallina.StdFooter}
 
-	nq := f.Count(1500, 14000)
+	nq := f.Count(1500, 60000)
 	const nds = 6
 	dsets := make([]*dataset, nds)
 	for i := range dsets {
@@ -344,6 +406,8 @@ func main() {
 		if err == nil {
 			c.rootType = e2.Type()
 			c.paramQuirk = hasParamQuirk(e2)
+			c.emptyQLbl = hasEmptyQuantileLabel(e2)
+			c.bareExt = hasBareExtendedMatrix(e2)
 			ll := strings.ToLower(c.q)
 			c.orderDep = strings.Contains(ll, "topk") || strings.Contains(ll, "bottomk") || strings.Contains(ll, "limitk")
 			func() {
@@ -387,14 +451,26 @@ func main() {
 	}
 
 	// ---- concurrent evaluation in the same engines
-	workers := 8
-	rounds := 2
+	workers := 2 * runtime.GOMAXPROCS(0)
+	if workers < 8 {
+		workers = 8
+	}
+	rounds := 3
+	stressReps := 40
 	var mu sync.Mutex
 	var suspects []*qcase
 	for round := 0; round < rounds; round++ {
 		order := make([]int, len(cases))
 		for i := range order {
 			order[i] = i
+		}
+		// the wide "stress" queries are repeated so that many of them overlap
+		for i, c := range cases {
+			if strings.HasPrefix(c.corpus, "stress-") {
+				for k := 0; k < stressReps; k++ {
+					order = append(order, i)
+				}
+			}
 		}
 		rr := gen.Fork(f.Seed, 5000000+round)
 		for i := len(order) - 1; i > 0; i-- {
@@ -468,6 +544,10 @@ func main() {
 			shape = "agg-param-not-preprocessed"
 		case internal && strings.Contains(msg, "*parser.StepInvariantExpr, not *parser.VectorSelector"):
 			shape = "info-selector-step-invariant-wrapped"
+		case internal && c.emptyQLbl && strings.Contains(msg, "index out of range [0] with length 0"):
+			shape = "histogram-quantiles-empty-label-name"
+		case internal && c.bareExt && strings.Contains(msg, "index out of range"):
+			shape = "extended-matrix-selector-empty-window"
 		case internal:
 			shape = "internal-error"
 		case !c.concSame:
